@@ -195,6 +195,12 @@ namespace pika::concurrency::detail {
 #if defined(PIKA_VERIF)
             PIKA_VERIF_POINT(1712, this, (std::uint64_t) (chunk), 0);
 #endif
+            // Continue the ABA tags of both links from the previous use of the
+            // chunk (chunks that come fresh from the pool are zero-filled), same
+            // idiom as boost::lockfree::queue::node: restarting at 0 lets a stalled
+            // link CAS of stabilize_left/right succeed against the recycled node.
+            ltag += chunk->left.load(std::memory_order_relaxed).get_tag() + 1;
+            rtag += chunk->right.load(std::memory_order_relaxed).get_tag() + 1;
             new (chunk) node(lptr, rptr, v, ltag, rtag);
             return chunk;
         }
@@ -209,6 +215,9 @@ namespace pika::concurrency::detail {
 #if defined(PIKA_VERIF)
             PIKA_VERIF_POINT(1712, this, (std::uint64_t) (chunk), 0);
 #endif
+            // See above: the link tags must never restart on reuse.
+            ltag += chunk->left.load(std::memory_order_relaxed).get_tag() + 1;
+            rtag += chunk->right.load(std::memory_order_relaxed).get_tag() + 1;
             new (chunk) node(lptr, rptr, std::move(v), ltag, rtag);
             return chunk;
         }
@@ -401,7 +410,9 @@ namespace pika::concurrency::detail {
 #if defined(PIKA_VERIF)
                     PIKA_VERIF_POINT(1716, this, (std::uint64_t) (n), 1);
 #endif
-                    n->right.store(node_pointer(lrs.get_left_ptr()));
+                    // (keep the tag of the link growing, see alloc_node)
+                    n->right.store(node_pointer(lrs.get_left_ptr(),
+                        n->right.load(std::memory_order_relaxed).get_tag() + 1));
 
                     // Now we want to make the anchor point to our new node as the
                     // leftmost node. We change the state to lpush as the deque
@@ -468,7 +479,9 @@ namespace pika::concurrency::detail {
 #if defined(PIKA_VERIF)
                     PIKA_VERIF_POINT(1716, this, (std::uint64_t) (n), 2);
 #endif
-                    n->left.store(node_pointer(lrs.get_right_ptr()));
+                    // (keep the tag of the link growing, see alloc_node)
+                    n->left.store(node_pointer(lrs.get_right_ptr(),
+                        n->left.load(std::memory_order_relaxed).get_tag() + 1));
 
                     // Now we want to make the anchor point to our new node as the
                     // leftmost node. We change the state to lpush as the deque
